@@ -35,9 +35,10 @@ local notation "E" => S2.Pred.exactDecision
 
 /-! ## 1. finding D48: the code before the repair -/
 
-/-- `NewEdgeCrosser` BEFORE the repair: tangents from the un-normalised `a.PointCross(b)` -/
+/-- `NewEdgeCrosser` BEFORE the repair: tangents from the un-normalised `a.PointCross(b)` (the `PointCross` of that time,
+    i.e. the one before repair D60: `pointCrossOld`) -/
 def tangentsOld (a b : V3) : V3 × V3 :=
-  let norm := pointCross a b
+  let norm := pointCrossOld a b
   (a.cross norm, norm.cross b)
 
 /-- `CrossingSign` BEFORE the repair -/
